@@ -11,6 +11,7 @@
 -/
 import DymVerif.Props.C05
 import DymVerif.Lemmas.PacketsLinkX
+import DymVerif.Lemmas.PacketsFulX
 namespace DymVerif.C05X
 open DymVerif DymVerif.Keys DymVerif.Packets
 
@@ -127,6 +128,38 @@ theorem finalize_pays_fulfiller_run (s0 : St) (h0 : InvAll s0) (ops : List Op) (
   intro hfw a' d' h1 h2
   exact hbal a' d' h1 h2 (fun r hr => by rw [hfw] at hr; cases hr)
 
+-- ================================================================== a fulfilled order is frozen
+
+/-- **fulfiller_persists (one operation)** — a pending order that carries a fulfiller and is still
+    pending (under its id) after an operation is the very same record: same fulfiller, and also the same
+    price, fee and recipient.  (It can only leave the pending orders: finalization of its packet turns it
+    FINALIZED, epoch clean-up / hard fork delete it.) -/
+theorem fulfiller_persists_step (s : St) (op : Op) (hb : BoundedOp op) (h : InvAll s) {o o' : Order}
+    (ho : o ∈ s.orders) (hs : o.status = .pending) (hf : o.fulfiller.isSome = true)
+    (ho' : o' ∈ (step s op).1.orders) (hs' : o'.status = .pending) (hid : o'.id = o.id) : o' = o :=
+  fulfilled_frozen_step op hb h ho hs hf ho' hs' hid
+
+/-- the order id `id` is the id of a pending order after every operation of the history -/
+def StaysPending (id : Bytes) : St → List Op → Prop
+  | _, [] => True
+  | s, op :: rest => (∃ o' ∈ (step s op).1.orders, o'.status = .pending ∧ o'.id = id) ∧ StaysPending id (step s op).1 rest
+
+/-- **fulfiller_persists** — through any history during which the order stays pending, a fulfilled
+    order is unchanged: in the final state it is still there with the same fulfiller (so, by
+    `fulfil_at_most_once_run`, it was never fulfilled a second time and its packet still remembers the
+    recipient as its original target) -/
+theorem fulfiller_persists : ∀ (ops : List Op) (s : St), (∀ o ∈ ops, BoundedOp o) → InvAll s →
+    ∀ o ∈ s.orders, o.status = .pending → o.fulfiller.isSome = true → StaysPending o.id s ops →
+    o ∈ (run s ops).orders
+  | [], _, _, _, _, ho, _, _, _ => ho
+  | op :: rest, s, hb, h, o, ho, hs, hf, hst => by
+    have hbo := hb op (List.mem_cons_self ..)
+    obtain ⟨⟨o', ho', hs', hid⟩, hrest⟩ := hst
+    have e : o' = o := fulfilled_frozen_step op hbo h ho hs hf ho' hs' hid
+    rw [e] at ho'
+    exact fulfiller_persists rest (step s op).1 (fun x hx => hb x (List.mem_cons_of_mem _ hx)) (invAll_step op hbo h)
+      o ho' hs hf hrest
+
 -- ================================================================== non-vacuity
 
 /-- after the direct fulfilment of the first demo order by account 2: its packet is redirected to 2 and
@@ -135,5 +168,9 @@ example : ((step (run C05.f6Init C05.demoOps) (.fulfill 2 C05.f6Key 1)).1.packet
     [(2, some 0, 1000), (0, none, 500)] := by decide
 example : ((step (run C05.f6Init C05.demoOps) (.fulfill 2 C05.f6Key 1)).1.orders.map
     (fun o => (o.recipient, o.fulfiller, o.amount))) = [(0, some 2, 1000), (0, none, 500)] := by decide
+
+/-- the fulfilled order stays as it is through a later accepted operation on the other order -/
+example : ((step (step (run C05.f6Init C05.demoOps) (.fulfill 2 C05.f6Key 1)).1 (.updateFee 0 C05.demoKey2 10)).1.orders.map
+    (fun o => (o.id == C05.f6Key, o.status, o.fulfiller, o.fee))) = [(true, .pending, some 2, 1), (false, .pending, none, 10)] := by decide
 
 end DymVerif.C05X
